@@ -5,8 +5,8 @@
 // the same names plus an unknown one x requested names (configured, unlisted, unknown,
 // prefixes / extensions / case variants, empty, with separators) on the socket-style front
 // end (AcceptConnection after Channels.Filter) and on the websocket front end with two
-// paths carrying independent allow-lists; then pairs of requests issued together on one
-// session while the n-th write of the server's carrier end is held. A wiring pass drives the real HttpServer.Startup
+// paths carrying independent allow-lists; then pairs of requests whose negotiations overlap
+// on one session (the server's answer to the first held until the second was heard). A wiring pass drives the real HttpServer.Startup
 // and SocketServer.Startup on loopback sockets for a reduced table.
 package c03
 
@@ -128,12 +128,16 @@ func runRequests(w *world.World, path string, table, list []string, phase string
 	return nil
 }
 
-// runPairs requests two names at (nearly) the same time on ONE fresh session, while the
-// hs-th write of the server's carrier end is held back until both requests are in: what one
-// request carries must not decide where the other one goes.
+// runPairs requests two names on ONE established session such that their negotiations
+// overlap on the server: the session is warmed up with one request; then the next write of
+// the server's carrier end is held (its data is delivered, the call does not return); the
+// first request is issued and reaches the point where the server answers it (held); the
+// second request is issued and heard by the server; the hold is released. What one request
+// carries must not decide where the other one goes. Every step is taken at quiescence, so
+// the overlap does not depend on goroutine scheduling.
 var pairsRun int // sessions driven by runPairs in the current execution
 
-func runPairs(w *world.World, path string, table, list []string, phase string, hold *int, release *func()) *failure {
+func runPairs(w *world.World, path string, table, list []string, phase string, lastSrv **netsim.MemConn) *failure {
 	var pool []string
 	for _, n := range names {
 		if route(table, list, n) != "" {
@@ -150,58 +154,62 @@ func runPairs(w *world.World, path string, table, list []string, phase string, h
 				continue
 			}
 			for _, swap := range []bool{false, true} {
-				for hs := 0; hs <= 6; hs++ {
-					pair := []string{n1, n2}
-					if swap {
-						pair = []string{n2, n1}
-					}
-					*hold, *release = hs, nil
-					pairsRun++
-					ups := w.NewClientPath(path)
-					before := map[string]int{}
-					for _, c := range w.Chans {
-						before[c.ChName] = c.NumTargets()
-					}
-					var apps []*world.Endpoint
-					for _, name := range pair {
-						app := w.OpenAppVia(ups, name, nil)
-						app.StartWrite([]byte("pair-" + fmt.Sprintf("%q", name)))
-						apps = append(apps, app)
-					}
-					bubble.Wait()
-					if *release != nil {
-						(*release)()
-					}
-					*hold = 0
-					bubble.Wait()
-					bubble.Advance(2 * time.Second)
-					want := map[string][]string{} // channel -> payloads that must arrive there
-					for _, name := range pair {
-						if ch := route(table, list, name); ch != "" {
-							want[ch] = append(want[ch], "pair-"+fmt.Sprintf("%q", name))
-						}
-					}
-					for _, c := range w.Chans {
-						var got []string
-						for i := before[c.ChName]; i < c.NumTargets(); i++ {
-							got = append(got, string(c.Target(i).Bytes()))
-						}
-						sort.Strings(got)
-						exp := append([]string{}, want[c.ChName]...)
-						sort.Strings(exp)
-						if fmt.Sprint(got) != fmt.Sprint(exp) {
-							kind := "misrouted"
-							if len(got) > len(exp) {
-								kind = "exposed"
-							}
-							return &failure{kind + "|two-requests-at-once", fmt.Sprintf("%s: requests %q issued together on one session (server write #%d held meanwhile; table %v, allow-list %v): target %q got connections carrying %q, must be %q (front=%q)", phase, pair, hs, table, list, c.ChName, got, exp, w.Front.Err)}
-						}
-					}
-					for _, a := range apps {
-						a.Close()
-					}
+				pair := []string{n1, n2}
+				if swap {
+					pair = []string{n2, n1}
+				}
+				pairsRun++
+				*lastSrv = nil
+				ups := w.NewClientPath(path)
+				warm := w.OpenAppVia(ups, n1, nil)
+				warm.StartWrite([]byte("warm-up"))
+				bubble.Wait()
+				warm.Close()
+				bubble.Wait()
+				if *lastSrv == nil {
+					return &failure{"setup", "no carrier connection was dialled for the session"}
+				}
+				release := (*lastSrv).HoldNextWriteReturn()
+				before := map[string]int{}
+				for _, c := range w.Chans {
+					before[c.ChName] = c.NumTargets()
+				}
+				var apps []*world.Endpoint
+				for _, name := range pair {
+					app := w.OpenAppVia(ups, name, nil)
+					app.StartWrite([]byte("pair-" + fmt.Sprintf("%q", name)))
+					apps = append(apps, app)
 					bubble.Wait()
 				}
+				release()
+				bubble.Wait()
+				bubble.Advance(2 * time.Second)
+				want := map[string][]string{} // channel -> payloads that must arrive there
+				for _, name := range pair {
+					if ch := route(table, list, name); ch != "" {
+						want[ch] = append(want[ch], "pair-"+fmt.Sprintf("%q", name))
+					}
+				}
+				for _, c := range w.Chans {
+					var got []string
+					for i := before[c.ChName]; i < c.NumTargets(); i++ {
+						got = append(got, string(c.Target(i).Bytes()))
+					}
+					sort.Strings(got)
+					exp := append([]string{}, want[c.ChName]...)
+					sort.Strings(exp)
+					if fmt.Sprint(got) != fmt.Sprint(exp) {
+						kind := "misrouted"
+						if len(got) > len(exp) {
+							kind = "exposed"
+						}
+						return &failure{kind + "|overlapping-requests", fmt.Sprintf("%s: requests %q overlapping on one session (the server's answer to the first one held until the second one was heard; table %v, allow-list %v): target %q got connections carrying %q, must be %q (front=%q)", phase, pair, table, list, c.ChName, got, exp, w.Front.Err)}
+					}
+				}
+				for _, a := range apps {
+					a.Close()
+				}
+				bubble.Wait()
 			}
 		}
 	}
@@ -229,12 +237,8 @@ func classify(table, list []string, name string) string {
 func execute(t *testing.T, c Case) (kind, detail string, startupRefused bool) {
 	res := bubble.Run(t, func() {
 		o := world.Options{Carrier: "stream", Channels: c.Table, AllowList: c.List, Keep: true}
-		hold, release := 0, (func())(nil)
-		o.OnDial = func(_, sv *netsim.MemConn) {
-			if hold > 0 {
-				release = sv.HoldWriteReturn(hold)
-			}
-		}
+		var lastSrv *netsim.MemConn // the server's end of the carrier connection dialled last
+		o.OnDial = func(_, sv *netsim.MemConn) { lastSrv = sv }
 		if c.Front == "ws" {
 			o.Carrier = "ws"
 			l2 := c.List2
@@ -252,7 +256,7 @@ func execute(t *testing.T, c Case) (kind, detail string, startupRefused bool) {
 			return
 		}
 		if c.Pairs {
-			if f := runPairs(w, "", c.Table, c.List, "path /ws", &hold, &release); f != nil {
+			if f := runPairs(w, "", c.Table, c.List, "path /ws", &lastSrv); f != nil {
 				kind, detail = f.kind, f.detail
 			}
 			return
